@@ -467,6 +467,8 @@ pub fn mark_progress(hno: usize, k: usize, in_build: bool) {
 
 pub struct BuildOutcome {
     pub res: Value,
+    /// class of the rolled-back first attempt (retry_same_builder only)
+    pub first: Option<Value>,
     pub polls: u64,
     /// (MainStep announced through the progress callback, polls counted so far)
     pub steps: Vec<(String, u64)>,
@@ -479,6 +481,17 @@ pub fn do_build(wtxn: &mut RwTxn, db: RawDb, idx: u16, metric: Metric, dim: usiz
 
 #[allow(clippy::too_many_arguments)]
 pub fn do_build_with(pool: &mut WriterPool, wtxn: &mut RwTxn, db: RawDb, idx: u16, metric: Metric, dim: usize, o: &BuildOpts, max_polls: u64) -> BuildOutcome {
+    do_build_env(pool, None, wtxn, db, idx, metric, dim, o, max_polls)
+}
+
+/// with `env` and `o.retry_same_builder`: first attempt (with the fault) in a nested transaction that is rolled back,
+/// then the same builder, fault withdrawn, on the caller's transaction; the outcome is the second attempt's and
+/// `first` holds the class of the first one
+#[allow(clippy::too_many_arguments)]
+pub fn do_build_env(pool: &mut WriterPool, env: Option<&Env>, wtxn: &mut RwTxn, db: RawDb, idx: u16, metric: Metric, dim: usize, o: &BuildOpts, max_polls: u64) -> BuildOutcome {
+    let retry = o.retry_same_builder && env.is_some() && o.cancel_at.is_some();
+    let fault_on = std::sync::atomic::AtomicBool::new(true);
+    let first: std::sync::Mutex<Option<Value>> = std::sync::Mutex::new(None);
     let polls = AtomicU64::new(0);
     let steps: std::sync::Mutex<Vec<(String, u64)>> = std::sync::Mutex::new(Vec::new());
     let watchdog = std::sync::atomic::AtomicBool::new(false);
@@ -510,10 +523,22 @@ pub fn do_build_with(pool: &mut WriterPool, wtxn: &mut RwTxn, db: RawDb, idx: u1
                     return true;
                 }
                 match cancel_at {
-                    Some(c) => n >= c,
+                    Some(c) => fault_on.load(Ordering::SeqCst) && n >= c,
                     None => false,
                 }
             });
+            if retry {
+                let mut child = env.unwrap().nested_write_txn(wtxn).unwrap();
+                let r1 = catch_unwind(AssertUnwindSafe(|| b.build(&mut child)));
+                child.abort();
+                *first.lock().unwrap() = Some(match r1 {
+                    Ok(Ok(())) => json!("Ok"),
+                    Ok(Err(e)) => err_class(&e)["c"].clone(),
+                    Err(_) => json!("Panic"),
+                });
+                fault_on.store(false, Ordering::SeqCst);
+                steps.lock().unwrap().clear();
+            }
             b.build(wtxn)
             })
         })
@@ -531,7 +556,7 @@ pub fn do_build_with(pool: &mut WriterPool, wtxn: &mut RwTxn, db: RawDb, idx: u1
         Err(p) => json!({"c":"Panic","msg":panic_msg(p)}),
     };
     let steps = steps.into_inner().unwrap();
-    BuildOutcome { res, polls: polls_n, steps }
+    BuildOutcome { res, polls: polls_n, steps, first: first.into_inner().unwrap() }
 }
 
 /// Executes the history; appends the events to `out`. Runs on the calling thread (callers that
@@ -793,7 +818,7 @@ pub fn run_history_with(
                 mark_progress(hno, k, true);
                 // hook H2: tree nodes and roots after each phase of the build (small histories only)
                 let phases: std::rc::Rc<std::cell::RefCell<Vec<(&'static str, Vec<u32>, RawDump)>>> = Default::default();
-                if h.sides {
+                if h.sides && !o.retry_same_builder {
                     let sink = phases.clone();
                     arroy::verif::set_phase_sink(Some(Box::new(move |name, rtxn, index, roots| {
                         let pfx = [index.to_be_bytes()[0], index.to_be_bytes()[1], decode::KIND_TREE];
@@ -801,10 +826,10 @@ pub fn run_history_with(
                         sink.borrow_mut().push((name, roots.to_vec(), d));
                     })));
                 }
-                let bo = do_build_with(&mut pool, w, db, idx, m, dim, o, h.max_polls.min(cfg.max_polls));
+                let bo = do_build_env(&mut pool, Some(&env), w, db, idx, m, dim, o, h.max_polls.min(cfg.max_polls));
                 mark_progress(hno, k, false);
                 arroy::verif::set_phase_sink(None);
-                if h.sides && bo.res["c"] == "Ok" {
+                if h.sides && !o.retry_same_builder && bo.res["c"] == "Ok" {
                     let ph: Vec<Value> = phases.borrow().iter().map(|(name, roots, d)| {
                         let dec = decode::decode_dump(d, &|_| Some(m));
                         let empty = IndexRaw::default();
@@ -823,7 +848,10 @@ pub fn run_history_with(
                 ev["ev"] = json!("Build");
                 ev["args"] = json!({"n_trees": o.n_trees.map(|x| x as i64).unwrap_or(0), "split_after": o.split_after.map(|x| x as i64).unwrap_or(0),
                     "mem": o.mem.map(|x| x.min(i32::MAX as usize) as i64).unwrap_or(-1), "threads": rayon::current_num_threads() as i64,
-                    "cancel_at": o.cancel_at.map(|x| x.min(i32::MAX as u64) as i64).unwrap_or(-1)});
+                    "cancel_at": if bo.first.is_some() { -1 } else { o.cancel_at.map(|x| x.min(i32::MAX as u64) as i64).unwrap_or(-1) }});
+                if let Some(f) = &bo.first {
+                    ev["retry_first"] = f.clone();
+                }
                 ev["polls"] = json!(bo.polls.min(i32::MAX as u64) as i64);
                 ev["steps"] = json!(bo.steps.iter().map(|(s, n)| json!([s, (*n).min(i32::MAX as u64) as i64])).collect::<Vec<_>>());
                 if bo.res["c"] != "Ok" {
